@@ -120,7 +120,7 @@ impl Serializable for Context {
     /// Serializes `self` and writes the resulting bytes into the `target`.
     fn write_into<W: ByteWriter>(&self, target: &mut W) {
         self.trace_info.write_into(target);
-        assert!(self.field_modulus_bytes.len() < u8::MAX as usize);
+        assert!(self.field_modulus_bytes.len() <= u8::MAX as usize);
         target.write_u8(self.field_modulus_bytes.len() as u8);
         target.write_bytes(&self.field_modulus_bytes);
         self.options.write_into(target);
